@@ -57,6 +57,9 @@ class TraceFaithful(Harness):
         # the known finding is exhibited by one dedicated case, so that it suppresses nothing else
         yield dict(t='defun_if', spec=0, part='mixed')
 
+    def native_checks(self, case):
+        return [('compile', case['t'], 'cl21', False)]
+
     def tmpl(self, case):
         for name, src, specs in TEMPLATES:
             if name == case['t']:
